@@ -760,53 +760,101 @@ func (z *E24) SetBytes(e []byte) error {
 		return errors.New("invalid buffer size")
 	}
 	offset := 0
-	z.D0.C0.B0.A0.SetBytes(e[offset : offset+sizeOfFp])
+	if err := z.D0.C0.B0.A0.SetBytesCanonical(e[offset : offset+sizeOfFp]); err != nil {
+		return err
+	}
 	offset += sizeOfFp
-	z.D0.C0.B0.A1.SetBytes(e[offset : offset+sizeOfFp])
+	if err := z.D0.C0.B0.A1.SetBytesCanonical(e[offset : offset+sizeOfFp]); err != nil {
+		return err
+	}
 	offset += sizeOfFp
-	z.D0.C0.B1.A0.SetBytes(e[offset : offset+sizeOfFp])
+	if err := z.D0.C0.B1.A0.SetBytesCanonical(e[offset : offset+sizeOfFp]); err != nil {
+		return err
+	}
 	offset += sizeOfFp
-	z.D0.C0.B1.A1.SetBytes(e[offset : offset+sizeOfFp])
+	if err := z.D0.C0.B1.A1.SetBytesCanonical(e[offset : offset+sizeOfFp]); err != nil {
+		return err
+	}
 	offset += sizeOfFp
-	z.D0.C1.B0.A0.SetBytes(e[offset : offset+sizeOfFp])
+	if err := z.D0.C1.B0.A0.SetBytesCanonical(e[offset : offset+sizeOfFp]); err != nil {
+		return err
+	}
 	offset += sizeOfFp
-	z.D0.C1.B0.A1.SetBytes(e[offset : offset+sizeOfFp])
+	if err := z.D0.C1.B0.A1.SetBytesCanonical(e[offset : offset+sizeOfFp]); err != nil {
+		return err
+	}
 	offset += sizeOfFp
-	z.D0.C1.B1.A0.SetBytes(e[offset : offset+sizeOfFp])
+	if err := z.D0.C1.B1.A0.SetBytesCanonical(e[offset : offset+sizeOfFp]); err != nil {
+		return err
+	}
 	offset += sizeOfFp
-	z.D0.C1.B1.A1.SetBytes(e[offset : offset+sizeOfFp])
+	if err := z.D0.C1.B1.A1.SetBytesCanonical(e[offset : offset+sizeOfFp]); err != nil {
+		return err
+	}
 	offset += sizeOfFp
-	z.D0.C2.B0.A0.SetBytes(e[offset : offset+sizeOfFp])
+	if err := z.D0.C2.B0.A0.SetBytesCanonical(e[offset : offset+sizeOfFp]); err != nil {
+		return err
+	}
 	offset += sizeOfFp
-	z.D0.C2.B0.A1.SetBytes(e[offset : offset+sizeOfFp])
+	if err := z.D0.C2.B0.A1.SetBytesCanonical(e[offset : offset+sizeOfFp]); err != nil {
+		return err
+	}
 	offset += sizeOfFp
-	z.D0.C2.B1.A0.SetBytes(e[offset : offset+sizeOfFp])
+	if err := z.D0.C2.B1.A0.SetBytesCanonical(e[offset : offset+sizeOfFp]); err != nil {
+		return err
+	}
 	offset += sizeOfFp
-	z.D0.C2.B1.A1.SetBytes(e[offset : offset+sizeOfFp])
+	if err := z.D0.C2.B1.A1.SetBytesCanonical(e[offset : offset+sizeOfFp]); err != nil {
+		return err
+	}
 	offset += sizeOfFp
-	z.D1.C0.B0.A0.SetBytes(e[offset : offset+sizeOfFp])
+	if err := z.D1.C0.B0.A0.SetBytesCanonical(e[offset : offset+sizeOfFp]); err != nil {
+		return err
+	}
 	offset += sizeOfFp
-	z.D1.C0.B0.A1.SetBytes(e[offset : offset+sizeOfFp])
+	if err := z.D1.C0.B0.A1.SetBytesCanonical(e[offset : offset+sizeOfFp]); err != nil {
+		return err
+	}
 	offset += sizeOfFp
-	z.D1.C0.B1.A0.SetBytes(e[offset : offset+sizeOfFp])
+	if err := z.D1.C0.B1.A0.SetBytesCanonical(e[offset : offset+sizeOfFp]); err != nil {
+		return err
+	}
 	offset += sizeOfFp
-	z.D1.C0.B1.A1.SetBytes(e[offset : offset+sizeOfFp])
+	if err := z.D1.C0.B1.A1.SetBytesCanonical(e[offset : offset+sizeOfFp]); err != nil {
+		return err
+	}
 	offset += sizeOfFp
-	z.D1.C1.B0.A0.SetBytes(e[offset : offset+sizeOfFp])
+	if err := z.D1.C1.B0.A0.SetBytesCanonical(e[offset : offset+sizeOfFp]); err != nil {
+		return err
+	}
 	offset += sizeOfFp
-	z.D1.C1.B0.A1.SetBytes(e[offset : offset+sizeOfFp])
+	if err := z.D1.C1.B0.A1.SetBytesCanonical(e[offset : offset+sizeOfFp]); err != nil {
+		return err
+	}
 	offset += sizeOfFp
-	z.D1.C1.B1.A0.SetBytes(e[offset : offset+sizeOfFp])
+	if err := z.D1.C1.B1.A0.SetBytesCanonical(e[offset : offset+sizeOfFp]); err != nil {
+		return err
+	}
 	offset += sizeOfFp
-	z.D1.C1.B1.A1.SetBytes(e[offset : offset+sizeOfFp])
+	if err := z.D1.C1.B1.A1.SetBytesCanonical(e[offset : offset+sizeOfFp]); err != nil {
+		return err
+	}
 	offset += sizeOfFp
-	z.D1.C2.B0.A0.SetBytes(e[offset : offset+sizeOfFp])
+	if err := z.D1.C2.B0.A0.SetBytesCanonical(e[offset : offset+sizeOfFp]); err != nil {
+		return err
+	}
 	offset += sizeOfFp
-	z.D1.C2.B0.A1.SetBytes(e[offset : offset+sizeOfFp])
+	if err := z.D1.C2.B0.A1.SetBytesCanonical(e[offset : offset+sizeOfFp]); err != nil {
+		return err
+	}
 	offset += sizeOfFp
-	z.D1.C2.B1.A0.SetBytes(e[offset : offset+sizeOfFp])
+	if err := z.D1.C2.B1.A0.SetBytesCanonical(e[offset : offset+sizeOfFp]); err != nil {
+		return err
+	}
 	offset += sizeOfFp
-	z.D1.C2.B1.A1.SetBytes(e[offset : offset+sizeOfFp])
+	if err := z.D1.C2.B1.A1.SetBytesCanonical(e[offset : offset+sizeOfFp]); err != nil {
+		return err
+	}
 
 	return nil
 }
